@@ -1,26 +1,48 @@
-import RsMatterVerif.Lemmas.Transport
+import RsMatterVerif.Lemmas.RxPath
 /-!
 # C10 — a message reaches only its own exchange, and the receive path never wedges
 
-Theorems over `Model/Transport.lean`:
-* `delivered_only_to_owner`: a received message changes at most one exchange slot of its session —
-  the one whose (exchange id, role) the header addresses — or fills one free slot with a new
-  accept-pending exchange, or changes nothing; `owner_is_keyed` says what "addresses" means;
-* `new_exchange_gate` / `new_exchange_gate_complete`: a new exchange is opened iff no live exchange
-  owns the message, the initiator flag is set, the opcode may open one, the session is not expired,
-  a slot is free (and the counter is fresh);
-* `unknown_exchange_dropped`, `expired_opens_nothing`;
-* `unclaimed_is_discarded`: in every state in which a message waits in the RX slot, either a sweep
-  that empties the slot is enabled now (orphan sweep: session vanished / exchange unknown / exchange
-  dropped), or the exchange is accept-pending and the accept sweep empties the slot once the accept
-  deadline has passed, or the exchange has a live owner; and `owner_drop_enables_discard`: when that
-  owner drops its exchange the slot becomes free or dropped (so the orphan sweep is enabled).
-  With the sweeper tasks scheduled (fairness hypothesis, see `docs/C10.md`) the RX slot is therefore
-  freed within the accept deadline plus one sweep period unless a live owner is about to consume it.
-* `closer_finds_dropped`: the dropped-exchange closer does something whenever a dropped exchange exists.
+## A. Run-level theorems (over ALL histories of the transition system `Model/RxPath.lean`:
+session table + the single RX packet slot + clock; steps = `process_rx`/`decode_packet`/`handle_rx_packet`,
+`accept_if`, `ExchangeId::recv`, send, `Exchange::drop`, `initiate_for_session`, session establishment,
+session removal, time, the accept-timeout sweep, the orphan sweep, the dropped-exchange closer)
+`Reach n` = `n` is reachable from the empty node by any history, as long as fewer than 2^28 sessions
+were ever created (the 28-bit internal session id has not wrapped).
+* `delivered_only_to_owner_run`: in every reachable state, if `recv` of the exchange (uid, idx) returns
+  the waiting message, then that exchange's session has the message's local session id AND peer
+  (address/node ids: `port`) AND security kind, the exchange has the message's exchange id and the role
+  its initiator flag addresses, it is owned by a live `Exchange`, it is the ONLY exchange of the node
+  with that identity, and it is the one the transport's own look-up (`get_for_rx` + `get_exch_for_rx`) finds.
+* `pending_has_message` (+ `accept_pending_is_stamped`, `empty_slot_no_pending`): an accept-pending
+  exchange exists only while its first message waits in the RX slot, it is that message's owner, and its
+  `recvAt` stamp is the arrival time of that message (so `rp → recvAt = some _` is an invariant).
+* `slot_always_freeable`: in every reachable state with an occupied RX slot: the orphan sweep empties it
+  now, or its owner is accept-pending (`accept_if` is enabled; time can advance; from the accept deadline
+  on the accept sweep empties it), or its owner is a live `Exchange` (whose `recv` returns it unless a
+  retransmission is pending, and whose drop makes the orphan sweep empty it).
+* `unclaimed_discarded_within`: liveness under an EXPLICIT fairness hypothesis (`SweepFair`: from every
+  point of an infinite run each sweeper is polled before `poll` more milliseconds have passed) and
+  time divergence: a message nobody owns (no live `Exchange` ever claims it) has left the RX slot by
+  `max (now, arrival + ACCEPT_TIMEOUT_MS) + pollAccept + pollOrphan`.
+* `closer_acts_when_dropped`, `dropped_exchange_closed`: in every reachable state with a dropped
+  exchange the closer does something; what it does: frees that slot (writing the standalone ack iff one
+  is owed) or closes the session (iff a retransmission is pending); no other exchange becomes dropped.
+* `other_exchanges_progress`: with the slot free, a fresh message for ANY owned exchange that is not
+  waiting for an acknowledgement is kept for it and its `recv` returns it — whatever state the other
+  exchanges of the node are in.
+
+## B. One-step theorems about `Session::post_recv` and the sweep conditions (every `Sess` / `Table`)
+* `post_recv_touches_only_owner_slot` (was `delivered_only_to_owner`): which exchange slot `post_recv`
+  MUTATES — not who is handed the packet (that is section A); `owner_is_keyed`, `delivery_keeps_identity`;
+* `new_exchange_gate` / `new_exchange_gate_complete`, `unknown_exchange_dropped`, `expired_opens_nothing`;
+* `sweep_conditions_exhaustive` (was `unclaimed_is_discarded`): the enabling conditions of the two sweeps
+  together with {accept-pending before the deadline, initiator-owned, responder-owned} are exhaustive —
+  a case split, not liveness; `accept_deadline_passes`, `owner_drop_enables_discard`;
+* `closer_finds_dropped` / `closerIdle_nothing`: closer idle ⇒ no dropped exchange (the converse
+  direction needs unique internal ids and is `closer_acts_when_dropped` in section A).
 -/
 namespace C10
-open Transport
+open Transport RxPath
 
 /-- the owner of a message is keyed by (exchange id, role): an initiator-flagged message addresses
 our responder-role exchange and vice versa; the first such slot is taken -/
@@ -29,9 +51,10 @@ theorem owner_is_keyed (s : Sess) (h : RxHdr) (i : Nat) (hf : s.getExchForRx h =
   let ⟨e, h1, h2, h3, _⟩ := getExchForRx_some s h i hf
   ⟨e, h1, h2, h3⟩
 
-/-- **Delivered only to the owner**: every slot that differs after `post_recv` is the owner's slot
-(result `Ok(false)`) or the newly opened one (result `Ok(true)`, the slot was free before). -/
-theorem delivered_only_to_owner (s : Sess) (h : RxHdr) (now : Nat) (j : Nat)
+/-- One step, one session: every exchange slot that differs after `post_recv` is the owner's slot
+(result `Ok(false)`) or the newly opened one (result `Ok(true)`, the slot was free before). This is
+about which slot `post_recv` mutates; who is handed the packet is `delivered_only_to_owner_run`. -/
+theorem post_recv_touches_only_owner_slot (s : Sess) (h : RxHdr) (now : Nat) (j : Nat)
     (hchg : (s.postRecv h now).1.slot j ≠ s.slot j) :
     ((s.postRecv h now).2 = .ok false ∧ s.getExchForRx h = some j) ∨
     ((s.postRecv h now).2 = .ok true ∧ s.slot j = none ∧ s.getExchForRx h = none) := by
@@ -134,9 +157,13 @@ example : (resCode exS1.2, resCode exS2.2, resCode exS3.2, resCode exS4.2) = (1,
 
 /-! ## The receive slot does not wedge -/
 
-/-- **In every state with a message waiting in the RX slot a discarding step is enabled or the
-message has a live claimant.** `port`/`sid` are the packet's peer port and session id, `h` its header. -/
-theorem unclaimed_is_discarded (t : Table) (port sid : Nat) (h : RxHdr) (now : Nat) :
+/-- One step, any table (no reachability): the enabling conditions of the two sweeps together with
+{accept-pending, initiator-owned, responder-owned} are exhaustive. Not a liveness statement: for an
+owned exchange and for an accept-pending one before its deadline no sweep is enabled, and on an
+arbitrary table an accept-pending exchange need not even carry a stamp (`recvAt = none`: no sweep
+ever fires) — that such states are unreachable is `pending_has_message`; that the slot can always
+be freed is `slot_always_freeable`. `port`/`sid` are the packet's peer and session id, `h` its header. -/
+theorem sweep_conditions_exhaustive (t : Table) (port sid : Nat) (h : RxHdr) (now : Nat) :
     -- the orphan sweep empties the slot now
     (t.sweepOrphan port sid h now).2 = true ∨
     -- or the message belongs to a live exchange …
@@ -212,53 +239,17 @@ theorem owner_drop_enables_discard (s : Sess) (i : Nat) (e : Exch) (hs : s.slot 
     rw [slot_set]; simp [hlt]
 
 /-- `findDropped` misses nothing -/
-theorem findDropped_none (want : Bool) : ∀ (l : List Sess), findDropped want l = none →
-    ∀ s ∈ l, ∀ i e, s.slot i = some e → ¬ (e.role.isDropped = true ∧ e.mrp.isRetransPending = want) := by
-  intro l
-  induction l with
-  | nil => intro _ s hs; simp at hs
-  | cons x xs ih =>
-    intro hf s hs i e hsl ⟨hd, hr⟩
-    have hgo : ∀ (es : List (Option Exch)) (k : Nat), findDropped.go want es k = none →
-        ∀ (j : Nat) (e : Exch), es[j]? = some (some e) → ¬ (e.role.isDropped = true ∧ e.mrp.isRetransPending = want) := by
-      intro es
-      induction es with
-      | nil => intro k _ j e hj; simp at hj
-      | cons y ys ihy =>
-        intro k hk j e hj ⟨h1, h2⟩
-        cases y with
-        | none =>
-          simp only [findDropped.go] at hk
-          cases j with
-          | zero => simp at hj
-          | succ j => rw [List.getElem?_cons_succ] at hj; exact ihy (k + 1) hk j e hj ⟨h1, h2⟩
-        | some e0 =>
-          simp only [findDropped.go] at hk
-          split at hk
-          · simp at hk
-          · rename_i hnot
-            cases j with
-            | zero =>
-              simp only [List.getElem?_cons_zero, Option.some.injEq] at hj
-              subst hj
-              simp [h1, h2] at hnot
-            | succ j => rw [List.getElem?_cons_succ] at hj; exact ihy (k + 1) hk j e hj ⟨h1, h2⟩
-    simp only [findDropped] at hf
-    split at hf
-    · simp at hf
-    · rename_i hx
-      rcases List.mem_cons.1 hs with h1 | h1
-      · subst h1
-        exact hgo s.exchs 0 hx i e ((slot_eq_some s i e).1 hsl) ⟨hd, hr⟩
-      · exact ih hf s h1 i e hsl ⟨hd, hr⟩
+theorem findDropped_none (want : Bool) (l : List Sess) (h : findDropped want l = none) :
+    ∀ s ∈ l, ∀ i e, s.slot i = some e → ¬ (e.role.isDropped = true ∧ e.mrp.isRetransPending = want) :=
+  RxPath.findDropped_none want l h
 
 /-- the closer has nothing to do: neither search finds a dropped exchange -/
 def closerIdle (t : Table) : Prop := findDropped true t.sessions = none ∧ findDropped false t.sessions = none
 
-/-- **The closer misses no dropped exchange**: when its two searches come back empty (and only then
-does it answer "nothing to do", `closerIdle_nothing`), no exchange of any session is in a dropped
-state. With the closer scheduled, every dropped exchange is therefore eventually closed — with the
-acknowledgement it owes, or by closing its session (`Table.sweepDropped`). -/
+/-- the closer's two searches miss no dropped exchange: when both come back empty no exchange of any
+session is in a dropped state (any table). The direction the property needs — a dropped exchange
+exists ⇒ the closer acts on one — is false on tables with duplicate internal ids and is proved for
+reachable states as `closer_acts_when_dropped`. -/
 theorem closer_finds_dropped (t : Table) (hn : closerIdle t) :
     ∀ s ∈ t.sessions, ∀ i e, s.slot i = some e → e.role.isDropped = false := by
   intro s hs i e hsl
@@ -275,5 +266,168 @@ theorem closerIdle_nothing (t : Table) (now : Nat) (hn : closerIdle t) : (t.swee
   simp [hn.1, hn.2]
 
 example : closerIdle {} := ⟨rfl, rfl⟩
+
+/-! # A. Run-level theorems over the receive-path transition system -/
+
+/-- **Delivered only to the owner** (every history): whenever `recv` of the exchange (uid, idx) returns
+a message, that message was waiting in the RX slot and the exchange is the one identified by the
+message's session (local session id, peer address / node ids, security kind), exchange id and role;
+it is owned by a live `Exchange`; NO other exchange of the node has this identity; and it is the
+exchange the transport's own look-up finds. (Seeded change C10-a — `recv` matching on the local
+session id only — falsifies this: two unsecured sessions of different peers, same exchange id.) -/
+theorem delivered_only_to_owner_run {n : Node} (hr : Reach n) {uid idx : Nat} {m : Msg}
+    (hd : (step n (.recv uid idx)).2 = .delivered uid idx m) :
+    ∃ r s e, n.rx = some r ∧ r.m = m ∧ s ∈ n.t.sessions ∧ s.uid = uid ∧ s.slot idx = some e ∧
+      (s.localSid = m.sid ∧ s.port = m.port ∧ s.mode.enc = (m.sid != 0)) ∧
+      (e.id = m.exch ∧ e.role.isResponder = m.initiator) ∧ RoleSt.isOwned e.role = true ∧
+      (∀ s' ∈ n.t.sessions, ∀ j f, s'.slot j = some f → s'.localSid = m.sid → s'.port = m.port →
+          f.id = m.exch → f.role.isResponder = m.initiator → s' = s ∧ j = idx) ∧
+      ownerOf n.t m = some (uid, idx) := by
+  have hi := inv_reach hr
+  simp only [step, recv] at hd
+  cases hs : n.t.sess uid with
+  | none => rw [get_absent hs] at hd; simp at hd
+  | some s =>
+    obtain ⟨hm, hu⟩ := sess_some_mem n.t uid s hs
+    subst hu
+    rw [get_mem hi.tinv.uidN hm] at hd
+    simp only at hd
+    cases he : (touch s n.now).slot idx with
+    | none => rw [he] at hd; simp at hd
+    | some e =>
+      rw [he] at hd
+      simp only at hd
+      split at hd
+      · simp at hd
+      · rename_i hown
+        split at hd
+        · simp at hd
+        · cases hrx : n.rx with
+          | none => rw [hrx] at hd; simp at hd
+          | some r =>
+            rw [hrx] at hd
+            simp only at hd
+            split at hd
+            · rename_i hmatch
+              simp only [Out.delivered.injEq, true_and] at hd
+              simp only [recvMatch, Bool.and_eq_true] at hmatch
+              obtain ⟨hf, hfor⟩ := hmatch
+              rw [(touch_same s n.now).isForRx] at hf
+              have he' : s.slot idx = some e := he
+              have hf' := hf
+              have hfor' := hfor
+              simp only [Sess.isForRx, Bool.and_eq_true, beq_iff_eq, Bool.not_eq_true'] at hf
+              simp only [Exch.isForRx, Bool.and_eq_true, beq_iff_eq] at hfor
+              have hown' : RoleSt.isOwned e.role = true := by simpa using hown
+              refine ⟨r, s, e, rfl, hd, hm, rfl, he', ?_, ?_, hown', ?_, ?_⟩
+              · rw [← hd]; exact ⟨hf.1.1.1, hf.1.1.2, hf.1.2⟩
+              · rw [← hd]; exact ⟨hfor.1, hfor.2.symm⟩
+              · intro s' hs' j f hj h1 h2 h3 h4
+                rw [← hd] at h1 h2 h3 h4
+                have hu := hi.tinv.keyI s' hs' s hm (by rw [h1, hf.1.1.1]) (by rw [h2, hf.1.1.2])
+                have hss := nodup_map_inj (fun (x : Sess) => x.uid) _ hi.tinv.uidN s' hs' s hm hu
+                subst hss
+                exact ⟨rfl, hi.tinv.uniq s' hs' j idx f e hj he' (by rw [h3]; exact hfor.1.symm)
+                  (by rw [h4]; exact hfor.2)⟩
+              · rw [← hd, ownerOf_eq hi.tinv hm hf', getExchForRx_of_slot s (hi.tinv.uniq s hm) _ idx e he' hfor']
+                rfl
+            · simp at hd
+
+/-- the same for an explicit history: after ANY list of steps from the empty node -/
+theorem delivered_only_to_owner_history (now0 : Nat) (ops : List Op) (hadm : Admissible { now := now0 } ops)
+    {uid idx : Nat} {m : Msg}
+    (hd : (step (run { now := now0 } ops).1 (.recv uid idx)).2 = .delivered uid idx m) :
+    ownerOf (run { now := now0 } ops).1.t m = some (uid, idx) ∧ (run { now := now0 } ops).1.rx.map (·.m) = some m := by
+  obtain ⟨r, _, _, hrx, hrm, _, _, _, _, _, _, _, how⟩ :=
+    delivered_only_to_owner_run (reach_run (Reach.init now0) ops hadm) hd
+  exact ⟨how, by rw [hrx]; simp [hrm]⟩
+
+/-- **An accept-pending exchange always has its message** (every history): it exists only while the
+message that opened it waits in the RX slot, it is that message's owner for the transport's look-up,
+and its `recvAt` stamp is the message's arrival time, which is not in the future. -/
+theorem pending_has_message {n : Node} (hr : Reach n) {s : Sess} (hs : s ∈ n.t.sessions) {i : Nat} {e : Exch}
+    (he : s.slot i = some e) (hrp : e.role = .rp) :
+    ∃ r, n.rx = some r ∧ ownerOf n.t r.m = some (s.uid, i) ∧ e.mrp.recvAt = some r.arrivedAt ∧
+      r.arrivedAt ≤ n.now := by
+  have hi := inv_reach hr
+  obtain ⟨r, hrx, hf, hfor, hst⟩ := hi.pend s hs i e he hrp
+  refine ⟨r, hrx, ?_, hst, hi.time r hrx⟩
+  rw [ownerOf_eq hi.tinv hs hf, getExchForRx_of_slot s (hi.tinv.uniq s hs) _ i e he hfor]
+  rfl
+
+/-- the invariant the audit asked for: accept-pending ⇒ stamped -/
+theorem accept_pending_is_stamped {n : Node} (hr : Reach n) {s : Sess} (hs : s ∈ n.t.sessions) {i : Nat} {e : Exch}
+    (he : s.slot i = some e) (hrp : e.role = .rp) : ∃ t0, e.mrp.recvAt = some t0 ∧ t0 ≤ n.now := by
+  obtain ⟨r, _, _, h1, h2⟩ := pending_has_message hr hs he hrp
+  exact ⟨_, h1, h2⟩
+
+/-- no accept-pending exchange is left behind when the slot is empty (the `xp = 0` clause of the
+system-level oracle) -/
+theorem empty_slot_no_pending {n : Node} (hr : Reach n) (hrx : n.rx = none) {s : Sess} (hs : s ∈ n.t.sessions)
+    {i : Nat} {e : Exch} (he : s.slot i = some e) : e.role ≠ .rp := by
+  intro hrp
+  obtain ⟨r, h1, _⟩ := pending_has_message hr hs he hrp
+  rw [hrx] at h1; cases h1
+
+/-- **The RX slot can always be freed** (every reachable state with an occupied slot). -/
+theorem slot_always_freeable {n : Node} (hr : Reach n) {r : Held} (hrx : n.rx = some r) :
+    -- (a) nobody can claim the message: the orphan sweep empties the slot now
+    ((step n .sweepOrphan).2 = .swept true ∧ (step n .sweepOrphan).1.rx = none) ∨
+    -- (b) its owner is accept-pending: a responder can accept it now; time can advance; and from the
+    --     accept deadline on the accept sweep empties the slot
+    (∃ s ∈ n.t.sessions, ∃ i e, s.slot i = some e ∧ e.role = .rp ∧ ownerOf n.t r.m = some (s.uid, i) ∧
+        e.mrp.recvAt = some r.arrivedAt ∧ (step n .accept).2 = .accepted s.uid i ∧
+        ∀ d, r.arrivedAt + Consts.acceptTimeoutMs ≤ n.now + d →
+          (step (step n (.tick d)).1 .sweepAccept).2 = .swept true ∧
+          (step (step n (.tick d)).1 .sweepAccept).1.rx = none) ∨
+    -- (c) its owner is a live `Exchange`: `recv` returns it (unless the exchange still waits for an
+    --     acknowledgement), and if the owner is dropped instead the orphan sweep empties the slot
+    (∃ s ∈ n.t.sessions, ∃ i e, s.slot i = some e ∧ RoleSt.isOwned e.role = true ∧
+        ownerOf n.t r.m = some (s.uid, i) ∧
+        (e.mrp.isRetransPending = false →
+          (step n (.recv s.uid i)).2 = .delivered s.uid i r.m ∧ (step n (.recv s.uid i)).1.rx = none) ∧
+        (step (step n (.dropEx s.uid i)).1 .sweepOrphan).2 = .swept true ∧
+        (step (step n (.dropEx s.uid i)).1 .sweepOrphan).1.rx = none) := by
+  have hi := inv_reach hr
+  rcases getForRx_cases n.t hi.tinv r.m.port r.m.sid n.now with ⟨s, hs, hf, _⟩ | ⟨hnone, _⟩
+  · cases hx : s.getExchForRx r.m.hdr with
+    | none =>
+      left
+      exact sweepOrphan_node hrx ((sweepOrphan_eval hi.tinv hs hf _ _).2 (fun i e hg => by rw [hx] at hg; cases hg))
+    | some i =>
+      obtain ⟨e, he, hfor⟩ := getExchForRx_slot s _ i hx
+      have how : ownerOf n.t r.m = some (s.uid, i) := by rw [ownerOf_eq hi.tinv hs hf, hx]; rfl
+      cases hrole : e.role with
+      | id =>
+        left
+        refine sweepOrphan_node hrx ((sweepOrphan_eval hi.tinv hs hf _ _).2 (fun j f hg hsj => ?_))
+        rw [hx] at hg; cases hg; rw [he] at hsj; cases hsj; rw [hrole]; rfl
+      | rd =>
+        left
+        refine sweepOrphan_node hrx ((sweepOrphan_eval hi.tinv hs hf _ _).2 (fun j f hg hsj => ?_))
+        rw [hx] at hg; cases hg; rw [he] at hsj; cases hsj; rw [hrole]; rfl
+      | rp =>
+        right; left
+        obtain ⟨r', hr', _, _, hst⟩ := hi.pend s hs i e he hrole
+        rw [hrx] at hr'; cases hr'
+        refine ⟨s, hs, i, e, he, hrole, how, hst, accept_fires hi hrx hs hf he hfor hrole, ?_⟩
+        intro d hd
+        have hrx' : (step n (.tick d)).1.rx = some r := hrx
+        refine sweepAccept_node hrx' ?_
+        show (n.t.sweepAccept r.m.port r.m.sid r.m.hdr (n.now + d)).2 = true
+        refine sweepAccept_fires hi.tinv hs hf he hfor hrole ?_
+        simp [Mrp.hasRxTimedOut, hst, hd]
+      | io =>
+        right; right
+        have hown : RoleSt.isOwned e.role = true := by rw [hrole]; rfl
+        exact ⟨s, hs, i, e, he, hown, how, fun hnr => recv_fires hi hrx hs hf he hfor hown hnr,
+          orphan_after_drop hi hrx hs hf he hfor hown⟩
+      | ro =>
+        right; right
+        have hown : RoleSt.isOwned e.role = true := by rw [hrole]; rfl
+        exact ⟨s, hs, i, e, he, hown, how, fun hnr => recv_fires hi hrx hs hf he hfor hown hnr,
+          orphan_after_drop hi hrx hs hf he hfor hown⟩
+  · left
+    exact sweepOrphan_node hrx (sweepOrphan_eval_none hi.tinv hnone _ _)
 
 end C10
